@@ -119,17 +119,17 @@ func usableScenario(p usableParams) func() {
 		for i, x := range p.calls {
 			if x.cancel {
 				c := calls[i]
-				mc.GoNamed(fmt.Sprintf("cancel-t%d", c.Tok), func() { c.Cancel(context.Canceled) })
+				mc.GoLow(fmt.Sprintf("cancel-t%d", c.Tok), func() { c.Cancel(context.Canceled) })
 			}
 		}
 		switch p.fault {
 		case "reset":
-			mc.GoNamed("fault", func() { w.FW.Reset(world.Addr(1)) })
+			mc.GoLow("fault", func() { w.FW.Reset(world.Addr(1)) })
 		case "restart":
-			mc.GoNamed("fault", func() { w.FW.Crash(world.Addr(1)); w.FW.Restart(world.Addr(1)) })
+			mc.GoLow("fault", func() { w.FW.Crash(world.Addr(1)); w.FW.Restart(world.Addr(1)) })
 		}
 		if p.timers {
-			mc.GoNamed("timers", func() {
+			mc.GoLow("timers", func() {
 				mc.Yield("timers.fire", &w.O)
 				mc.FireTimers(nil)
 			})
